@@ -148,6 +148,10 @@ loop:
 			return err
 		}
 		err := ctx.RenderChildren(w)
+		if err != nil && err.Cause() != errLoopBreak && err.Cause() != errLoopContinueLoop {
+			// the body failed: nothing more is written (the row is not closed after a failed write)
+			return err
+		}
 		if err := decorator.after(w, i, l); err != nil {
 			return err
 		}
